@@ -500,6 +500,119 @@ pub fn check_constructed(kind: &str, n: usize) -> Vec<Finding> {
     }
 }
 
+/// Packets at and just beyond what the 16-bit fields of the wire format can express: a record
+/// whose RDATA has about 65535 bytes (TXT of `n` 255-byte strings: 256 n bytes; an OPT with `n`
+/// options of 252 bytes), a section with `n` entries. Every serialiser either returns an error
+/// (allowed only when the packet cannot be represented) or writes a message whose counts and
+/// RDLENGTHs describe what follows.
+pub fn check_ceiling(kind: &str, n: usize) -> Vec<Finding> {
+    use simple_dns::rdata::{RData, A, OPT, OPTCode, TXT};
+    use simple_dns::{Name, Question, ResourceRecord, CLASS, QCLASS, QTYPE, TYPE};
+    let case = json!({"kind": "ceiling", "what": kind, "n": n});
+    let r = guarded(|| -> Result<Vec<(String, String)>, String> {
+        let mut bad = Vec::new();
+        let mut p = Packet::new_reply(9);
+        let filler = "s".repeat(255);
+        let optdata = vec![7u8; 252];
+        let arec = || ResourceRecord::new(Name::new_unchecked("a"), CLASS::IN, 1, RData::A(A { address: 1 }));
+        let mut expect = [0usize; 4];
+        let representable;
+        match kind {
+            "txt-rdata" => {
+                let mut t = TXT::new();
+                for _ in 0..n {
+                    t.add_string(&filler).map_err(|e| format!("add_string: {:?}", e))?;
+                }
+                p.answers.push(ResourceRecord::new(Name::new_unchecked("t.example"), CLASS::IN, 60, RData::TXT(t)));
+                p.additional_records.push(arec());
+                expect = [0, 1, 0, 1];
+                representable = n * 256 <= 65535;
+            }
+            "opt-rdata" => {
+                let mut o = OPT { opt_codes: Vec::new(), udp_packet_size: 1232, version: 0 };
+                for i in 0..n {
+                    o.opt_codes.push(OPTCode { code: i as u16, data: std::borrow::Cow::Borrowed(&optdata[..]) });
+                }
+                *p.opt_mut() = Some(o);
+                p.additional_records.push(arec());
+                expect = [0, 0, 0, 2];
+                representable = n * 256 <= 65535;
+            }
+            "questions" => {
+                for _ in 0..n {
+                    p.questions.push(Question::new(Name::new_unchecked("q"), QTYPE::TYPE(TYPE::A), QCLASS::CLASS(CLASS::IN), false));
+                }
+                expect[0] = n;
+                representable = n <= 65535;
+            }
+            "answers" | "authority" | "additional" | "additional+opt" => {
+                let (sec, idx) = match kind {
+                    "answers" => (&mut p.answers, 1),
+                    "authority" => (&mut p.name_servers, 2),
+                    _ => (&mut p.additional_records, 3),
+                };
+                for _ in 0..n {
+                    sec.push(arec());
+                }
+                expect[idx] = n;
+                if kind == "additional+opt" {
+                    *p.opt_mut() = Some(OPT { opt_codes: Vec::new(), udp_packet_size: 1232, version: 0 });
+                    expect[3] += 1;
+                }
+                representable = expect[idx] <= 65535;
+            }
+            _ => return Err(format!("unknown kind {}", kind)),
+        }
+        let mut outputs: Vec<(&str, Result<Vec<u8>, String>)> = Vec::new();
+        outputs.push(("build_bytes_vec", p.build_bytes_vec().map_err(|e| format!("{:?}", e))));
+        outputs.push(("build_bytes_vec_compressed", p.build_bytes_vec_compressed().map_err(|e| format!("{:?}", e))));
+        let mut cur = Cursor::new(Vec::new());
+        outputs.push(("write_to", p.write_to(&mut cur).map(|_| cur.into_inner()).map_err(|e| format!("{:?}", e))));
+        let mut cur = Cursor::new(Vec::new());
+        outputs.push(("write_compressed_to", p.write_compressed_to(&mut cur).map(|_| cur.into_inner()).map_err(|e| format!("{:?}", e))));
+        for (mode, out) in outputs {
+            match out {
+                Err(e) => {
+                    if representable {
+                        bad.push((format!("{}|refuses-representable", mode), format!("{} returns {} for a packet the wire format can express", mode, e)));
+                    }
+                }
+                Ok(bytes) => match crate::refmodel::wire::walk(&bytes) {
+                    Err(e) => bad.push((format!("{}|ill-framed", mode), format!("{} returned Ok for {} = {} but the {} bytes written do not walk: {:?}", mode, kind, n, bytes.len(), e))),
+                    Ok(w) => {
+                        let counts = [w.counts[0] as usize, w.counts[1] as usize, w.counts[2] as usize, w.counts[3] as usize];
+                        if counts != expect {
+                            bad.push((format!("{}|counts-wrapped", mode), format!("{} returned Ok for {} = {}: header counts {:?}, entries written {:?}", mode, kind, n, counts, expect)));
+                        } else if w.end != bytes.len() {
+                            bad.push((format!("{}|ill-framed", mode), format!("{} returned Ok for {} = {}: {} bytes follow the last counted entry (a length field wrapped)", mode, kind, n, bytes.len() - w.end)));
+                        }
+                    }
+                },
+            }
+        }
+        Ok(bad)
+    });
+    match r {
+        Err(pn) => vec![finding(format!("C04|ceiling|{}|{}", kind, pn.sig()), format!("{:?}", pn), case)],
+        Ok(Err(e)) => vec![finding(format!("C04|ceiling|{}|setup", kind), e, case)],
+        Ok(Ok(bad)) => bad.into_iter().map(|(t, d)| finding(format!("C04|ceiling|{}|{}", kind, t), d, case.clone())).collect(),
+    }
+}
+
+pub fn ceiling_cases() -> Vec<(&'static str, usize)> {
+    let mut v = Vec::new();
+    for n in [254usize, 255, 256, 257, 300, 600] {
+        v.push(("txt-rdata", n));
+        v.push(("opt-rdata", n));
+    }
+    for kind in ["questions", "answers", "authority", "additional", "additional+opt"] {
+        for n in [65533usize, 65534, 65535, 65536, 65537, 70000, 131072, 131073] {
+            v.push((kind, n));
+        }
+    }
+    v
+}
+
 pub fn run(ctx: &Ctx) {
     let thorough = ctx.tier == crate::engine::Tier::Thorough;
     ctx.set_rule("packets (header/record/question families with <= 1 deviation, section shapes, a 1/16 stride (quick) or 1/2 stride (thorough) of the 4-slot name-sharing space) x {plain, compressed} x writer configurations: Vec, growable cursor over 11 prefill/start combinations, fixed cursor at offsets 0 and 2 and fixed slice at every capacity 0..=len+2, chunking writers {1,2,7}, failing writer at every byte 0..=len; (a) output decoded strictly by the reference decoder, (b) bytes equal the vector-returning function and nothing outside them changes, (c) too small or failing => Err, enough room => Ok. non-trivial = packet has at least one record");
@@ -589,6 +702,20 @@ pub fn run(ctx: &Ctx) {
         }
     });
     ctx.space("non-initial states: every packet of the first family parsed from its compressed reference encoding, then one of 8 edits (push question / answer, append to TXT, set / clear OPT, remove, rename), then serialised and decoded strictly", edits.len() as u64, "complete");
+    {
+        let cases = ceiling_cases();
+        par_shards(ctx, &cases, |(kind, n), t: &mut Tally| {
+            t.evals += 1;
+            t.nontrivial += 1;
+            t.transitions += 4;
+            let f = check_ceiling(kind, *n);
+            t.outcome(if f.is_empty() { "framed" } else { "ill-framed" });
+            if !f.is_empty() {
+                ctx.violations(f);
+            }
+        });
+        ctx.space("16-bit ceilings: a TXT record of 254..600 full strings and an OPT of 254..600 options (RDATA of 65024..153600 bytes), sections of 65533..131073 entries (questions, answers, authority, additional, additional with OPT), through both vector builds and both writers: Ok only with counts and lengths that describe what was written, Err only for what the format cannot express", cases.len() as u64, "complete");
+    }
     ctx.space("packets: header/record/question families and section shapes", n1 as u64, "complete");
     ctx.space(&format!("packets: name-sharing space (4 slots) at stride {}, 3 straddle packets", stride * 7 + 1), (space.len() - n1) as u64, "complete for the stride");
     ctx.sample(json!({"kind": "packet", "packet": space[n1 / 2]}));
@@ -596,6 +723,9 @@ pub fn run(ctx: &Ctx) {
 }
 
 pub fn replay(case: &Value) -> Vec<Finding> {
+    if case["kind"].as_str() == Some("ceiling") {
+        return check_ceiling(case["what"].as_str().unwrap_or(""), case["n"].as_u64().unwrap_or(0) as usize);
+    }
     match serde_json::from_value::<RefPacket>(case["packet"].clone()) {
         _ if case["kind"].as_str() == Some("constructed") => check_constructed(case["ctor"].as_str().unwrap_or(""), case["n"].as_u64().unwrap_or(0) as usize),
         Ok(p) if case["kind"].as_str() == Some("parse-edit") => check_parse_edit(&p, case["edit"].as_u64().unwrap_or(0) as u8),
